@@ -6,8 +6,10 @@ package wire
 import (
 	"crypto/sha256"
 	"encoding/base64"
+	"encoding/json"
 	"errors"
 	"fmt"
+	"os"
 	"sort"
 	"sync"
 	"sync/atomic"
@@ -124,10 +126,41 @@ func (v *Version) DocumentValidator() protocol.DocumentValidator { return v.Vali
 func (v *Version) DocumentTransformer() protocol.DocumentTransformer { return v.Transformer }
 
 // Build wires a version of the real components for protocol parameters p.
+//
+// Long-lived components: a real node builds its parser, composer, applier, validator and compression registry once
+// per protocol version and uses them for every request. Build therefore shares these objects between all cases of a
+// process that ask for the same protocol parameters (and no custom parser options), so that state leaking from one
+// call into the next - a cache keyed by too little, a reused buffer - is exercised by every check instead of being
+// hidden by fresh objects per case. VERIF_FRESH_COMPONENTS=1 switches the sharing off (used to tell a state leak
+// from a stateless failure).
 func Build(p protocol.Protocol, d Deps) *Version {
-	parser := operationparser.New(p, d.ParserOpts...)
-	composer := doccomposer.New()
-	applier := operationapplier.New(p, parser, composer)
+	var parser *operationparser.Parser
+	var composer *doccomposer.DocumentComposer
+	var applier *operationapplier.Applier
+	shared := len(d.ParserOpts) == 0 && os.Getenv("VERIF_FRESH_COMPONENTS") == ""
+	var key string
+	if shared {
+		b, _ := json.Marshal(p)
+		key = string(b)
+		sharedMu.Lock()
+		if c, ok := sharedParts[key]; ok {
+			parser, composer, applier = c.parser, c.composer, c.applier
+		}
+		sharedMu.Unlock()
+	}
+	if parser == nil {
+		parser = operationparser.New(p, d.ParserOpts...)
+		composer = doccomposer.New()
+		applier = operationapplier.New(p, parser, composer)
+		if shared {
+			sharedMu.Lock()
+			if len(sharedParts) > 512 {
+				sharedParts = map[string]parts{} // bounded: checks that sweep parameters create many configurations
+			}
+			sharedParts[key] = parts{parser, composer, applier}
+			sharedMu.Unlock()
+		}
+	}
 	v := &Version{
 		Ver:         "1.0",
 		P:           p,
@@ -135,11 +168,11 @@ func Build(p protocol.Protocol, d Deps) *Version {
 		Parser:      parser,
 		Applier:     applier,
 		Composer:    composer,
-		Validator:   didvalidator.New(),
+		Validator:   sharedValidator,
 		Transformer: didtransformer.New(d.TransformerOpts...),
 	}
 	if d.CAS != nil {
-		cp := compression.New(compression.WithDefaultAlgorithms())
+		cp := sharedCompression
 		v.Handler = txnprovider.NewOperationHandler(p, d.CAS, cp, parser, Metrics{})
 		prov := txnprovider.NewOperationProvider(p, parser, d.CAS, cp, d.ProviderOpts...)
 		v.Provider = prov
@@ -149,6 +182,19 @@ func Build(p protocol.Protocol, d Deps) *Version {
 	}
 	return v
 }
+
+type parts struct {
+	parser   *operationparser.Parser
+	composer *doccomposer.DocumentComposer
+	applier  *operationapplier.Applier
+}
+
+var (
+	sharedMu          sync.Mutex
+	sharedParts       = map[string]parts{}
+	sharedValidator   = didvalidator.New()
+	sharedCompression = compression.New(compression.WithDefaultAlgorithms())
+)
 
 // providerRef lets a test replace v.Provider after Build and still have the transaction processor use it.
 type providerRef struct{ v *Version }
